@@ -266,9 +266,122 @@ def propagators(qc, cbit_values):
     return out
 
 
+# ----------------------------------------------------------------------------------------
+# the RETURNED circuit is edited through its public gate list and routed again
+
+def dict_of(g):
+    """gate object -> gate dict of a witness (content of a circuit at some moment)"""
+    _QubitCircuit, Measurement, Gate, _ = _impl()
+    if isinstance(g, Measurement):
+        return {"meas": g.name, "targets": list(g.targets), "cs": g.classical_store}
+    av = g.arg_value
+    return gd(g.name, controls=None if g.controls is None else list(g.controls),
+              targets=None if g.targets is None else list(g.targets),
+              arg=None if av is None else (float(av) if isinstance(av, (int, float, np.floating)) else list(av)),
+              cc=None if g.classical_controls is None else list(g.classical_controls),
+              ccv=g.classical_control_value, raw=type(g) is Gate)
+
+
+def gate_key(g):
+    d = dict_of(g)
+    return json.dumps(d, sort_keys=True)
+
+
+def apply_list_edit(cur, e, N):
+    """edits of a circuit through its public attribute `gates` (add_gate is not involved) -> the circuit to go on with:
+    ["extend", gates] | ["insert", i, gate] | ["replace", i, gate] | ["slice", i, j, gates] | ["assign", gates]
+    (a new list object) | ["copy_extend", gates] (deepcopy of the circuit, then extend)"""
+    from copy import deepcopy
+    kind = e[0]
+    objs = lambda gds: build({"N": N, "gates": gds})[0].gates
+    if kind == "extend":
+        cur.gates.extend(objs(e[1]))
+    elif kind == "insert":
+        cur.gates.insert(e[1], objs([e[2]])[0])
+    elif kind == "replace":
+        cur.gates[e[1]] = objs([e[2]])[0]
+    elif kind == "slice":
+        cur.gates[e[1]:e[2]] = objs(e[3])
+    elif kind == "assign":
+        cur.gates = list(cur.gates) + objs(e[1])
+    elif kind == "copy_extend":
+        cur = deepcopy(cur)
+        cur.gates.extend(objs(e[1]))
+    else:
+        raise ValueError("unknown edit " + repr(e))
+    return cur
+
+
+def check_chain_history(w):
+    """{"chain_history": {"N", "gates": initial content, "steps": [{"route": setup[, "api"]} | {"edit": [...]} ...]}}:
+    every `route` step routes the CURRENT circuit object (at first a circuit built from `gates`, afterwards the
+    circuit the previous route step returned, possibly edited through its gate list); its result must meet the
+    property for the content the circuit has at that moment and be what routing a freshly built circuit of that
+    content gives."""
+    o = w["chain_history"]
+    N = o["N"]
+    cur, exc = build({"N": N, "gates": o["gates"]})
+    if cur is None:
+        return False, f"not constructible ({exc})"
+    done = []
+    for k, stp in enumerate(o["steps"]):
+        if "edit" in stp:
+            try:
+                cur = apply_list_edit(cur, stp["edit"], N)
+            except Exception as e:
+                return False, f"edit not applicable ({type(e).__name__})"
+            done.append(stp["edit"][0])
+            continue
+        setup, api = stp["route"], stp.get("api", "chain")
+        content = {"N": N, "setup": setup, "api": api, "gates": [dict_of(g) for g in cur.gates]}
+        where = (f"step {k + 1} of {len(o['steps'])} (routing for '{setup}' the circuit "
+                 + ("returned by the previous routing" if "route" in done else "as built")
+                 + (", after " + ", ".join(x for x in done if x != "route") + " on its gate list" if
+                    any(x != "route" for x in done) else "") + f"; N={N}): ")
+        sink = []
+        f, d, _ = check_single(content, cur, sink)
+        if f:
+            return True, where + d
+        if sink and sink[0] is not None:
+            fresh, _ = build(content)
+            if fresh is not None:
+                st2, r2 = run_impl(fresh, api, setup if api == "chain" else None)
+                if r2 is None or [gate_key(g) for g in r2.gates] != [gate_key(g) for g in sink[0].gates]:
+                    return True, where + "the result differs from routing a freshly built circuit of the same content"
+            cur = sink[0]
+            done.append("route")
+    return False, "every routing step meets the property for the circuit as it is at that moment"
+
+
+def shrink_chain_history(w):
+    f, d = check_chain_history(w)
+    if not f:
+        return w
+    cur = json.loads(json.dumps(w))
+    m = re.match(r"step (\d+) of", d)
+    if m:
+        cur["chain_history"]["steps"] = cur["chain_history"]["steps"][:int(m.group(1))]
+    i = 0
+    while i < len(cur["chain_history"]["steps"]) - 1:
+        trial = json.loads(json.dumps(cur))
+        del trial["chain_history"]["steps"][i]
+        try:
+            ok = check_chain_history(trial)[0]
+        except Exception:
+            ok = False
+        if ok:
+            cur = trial
+        else:
+            i += 1
+    return cur
+
+
 def check_property(w):
     """(fails, detail) for a witness: one circuit, or a history of calls made in one process, in order
-    (`"reuse": true` = the circuit OBJECT of the previous call is routed again)."""
+    (`"reuse": true` = the circuit OBJECT of the previous call is routed again), or a chain history (the returned
+    circuit is edited through its gate list and routed again)."""
+    if "chain_history" in w:
+        return check_chain_history(w)
     if "history" not in w:
         return check_single(w)[:2]
     prev = None
@@ -281,8 +394,9 @@ def check_property(w):
     return False, f"all {n} calls meet the property"
 
 
-def check_single(w, qc=None):
-    """(fails, detail, circuit object) for one circuit of well-formed in-range gates."""
+def check_single(w, qc=None, sink=None):
+    """(fails, detail, circuit object) for one circuit of well-formed in-range gates; the routed circuit is appended
+    to `sink` if given."""
     _QubitCircuit, Measurement, _Gate, _ = _impl()
     N, setup, api = w["N"], w["setup"], w["api"]
     exc = None
@@ -301,6 +415,8 @@ def check_single(w, qc=None):
     if setup not in ("linear", "circular"):
         return False, "outside the property's domain (setup)", qc
     st, r = run_impl(qc, api, setup if api == "chain" else None, w)
+    if sink is not None:
+        sink.append(r)
     unhandled = [g for g in qc.gates if isinstance(g, Measurement) or g.name not in handled]
     if api == "adjacent":
         setup = "linear"
@@ -538,6 +654,36 @@ def systematic_histories(N):
                         circ(N, "circular", [h2("SWAPalpha", a, b)]), circ(N, "circular", [h2("SWAPalpha", a, b, alt=True)])]
 
 
+def chain_histories(N, full=True):
+    """(kind, witness): route, edit the RETURNED circuit through its public gate list, route again (same and other
+    setup)"""
+    rt = lambda s, api="chain": {"route": s, "api": api}
+    ed = lambda *e: {"edit": list(e)}
+    for a, b in itertools.combinations(range(N), 2):
+        if b - a < 2:
+            continue
+        c = a + 1
+        first = [h2("CNOT", a, b), h2("ISWAP", c, b)]
+        block = [h2("CNOT", b, a), h2("SQRTSWAP", a, b)]
+        far = h2("CSIGN", b, a)
+        for s, t in (("linear", "circular"), ("circular", "linear")):
+            yield "extend", {"chain_history": {"N": N, "gates": first, "steps": [rt(s), ed("extend", block), rt(s), rt(t)]}}
+            yield "insert", {"chain_history": {"N": N, "gates": first, "steps": [rt(s), ed("insert", 0, far), rt(s)]}}
+            yield "replace", {"chain_history": {"N": N, "gates": first, "steps": [rt(s), ed("replace", 0, far), rt(s), rt(t)]}}
+            if not full:
+                continue
+            yield "slice", {"chain_history": {"N": N, "gates": first, "steps": [rt(s), ed("slice", 0, 1, block), rt(s)]}}
+            yield "assign", {"chain_history": {"N": N, "gates": first, "steps": [rt(s), ed("assign", block), rt(s)]}}
+            yield "copy-extend", {"chain_history": {"N": N, "gates": first,
+                                                    "steps": [rt(s), ed("copy_extend", [far]), rt(s), rt(t), rt(s)]}}
+            yield "twice", {"chain_history": {"N": N, "gates": first, "steps": [rt(s), rt(s), ed("extend", [far]), rt(t), rt(s)]}}
+            yield "other-setup", {"chain_history": {"N": N, "gates": first,
+                                                    "steps": [rt(s), ed("extend", block), rt("ring"), ed("insert", 1, far), rt(s)]}}
+        if full:
+            yield "adjacent-api", {"chain_history": {"N": N, "gates": first, "steps": [rt("linear", "adjacent"), ed("extend", block),
+                                                                                    rt("linear", "adjacent"), rt("linear")]}}
+
+
 def conditioned_circuits(N):
     """(kind, gate list): handled gates carrying a classical condition, alone and fed by a measurement"""
     for a, b in itertools.permutations(range(N), 2):
@@ -586,6 +732,8 @@ def fresh_fails(w, timeout=300):
 
 def reproducible(w, ncalls, budget=26):
     """A witness that failed in this process: make it fail when replayed from scratch (see props/_fresh.py)."""
+    if "chain_history" in w:
+        return shrink_chain_history(w)         # self-contained: its own circuit objects
     own = w["history"] if "history" in w else [w]
     strip = lambda c: {k: v for k, v in c.items() if not k.startswith("_") and k != "reuse"}
     log = CALLS[:ncalls]
@@ -752,6 +900,44 @@ class C07(PropertyCheck):
             for c in live:
                 c.pop("_qc", None)
 
+    def _compare_chain_histories(self, ctx, res, hists):
+        """(kind, witness) - the model is a function of the content: every routing step is compared with the model's
+        answer for the gate list the circuit has at that moment (and, through the oracle, with a fresh circuit)"""
+        drv = ctx.driver("drv_route")
+        for kind, w in hists:
+            o = w["chain_history"]
+            N = o["N"]
+            cur, exc = build({"N": N, "gates": o["gates"]})
+            if cur is None:
+                continue
+            tags = Tags()
+            bad = None
+            for k, stp in enumerate(o["steps"]):
+                if "edit" in stp:
+                    cur = apply_list_edit(cur, stp["edit"], N)
+                    continue
+                c = {"N": N, "setup": stp["route"], "api": stp.get("api", "chain"), "_qc": cur}
+                line = request(tags, c)
+                ans = drv.run([line])[0]
+                st, r = run_impl(cur, c["api"], c["setup"])
+                impl = st if r is None else "ok " + ";".join(tags.gate(g) for g in r.gates)
+                if impl != ans:
+                    wk = json.loads(json.dumps(w))
+                    wk["chain_history"]["steps"] = o["steps"][:k + 1]
+                    bad = (ans, impl, f"routed gate lists differ at step {k + 1} of {len(o['steps'])} (the circuit returned by "
+                           "the router, edited through its gate list, routed again)", wk)
+                    break
+                if r is not None:
+                    cur = r
+            res.case(w, nontrivial=True, tags=["chain-history", "chain-history=" + kind, f"N={N}"])
+            if bad is not None:
+                if len(res.disagreements) < 3:
+                    try:
+                        bad = bad[:3] + (shrink_chain_history(bad[3]),)
+                    except Exception:
+                        pass
+                res.disagree(w, bad[0], bad[1], bad[2], bad[3])
+
     @staticmethod
     def _tags_single(w):
         g = w["gates"][0]
@@ -823,6 +1009,12 @@ class C07(PropertyCheck):
             n_hist += len(ws)
             self._compare(ctx, res, ws, lambda w: (any(self._far(c) for c in w["history"]),
                                                    ["history", "history=" + w["_kind"], f"calls={len(w['history'])}"]))
+        # the returned circuit edited through its gate list and routed again
+        ch = [x for N in range(3, (7 if ctx.thorough else 5) + 1) for x in chain_histories(N)]
+        self._compare_chain_histories(ctx, res, ch)
+        res.notes.append(f"chain histories: {len(ch)} sequences route / edit the RETURNED circuit through its public gate list "
+                         "(extend, insert, replace, slice assignment, new list, deepcopy + extend) / route again for the same "
+                         "and another setup; every routing step against the model on the current content")
         # conditioned gates
         n_cond = 0
         for N in range(2, (8 if ctx.thorough else 6) + 1):
@@ -866,6 +1058,8 @@ class C07(PropertyCheck):
 
     def finding_matches(self, witness, finding):
         if finding.get("class") == "conditioned-handled-gate":
+            if "chain_history" in witness:
+                return False
             cs = witness["history"] if "history" in witness else [witness]
             return any(conditioned_handled(c) for c in cs)
         return witness == finding.get("witness")
@@ -874,7 +1068,7 @@ class C07(PropertyCheck):
     def _in_theorem_class(w):
         """While the source drops classical conditions the theorems exclude conditioned handled gates
         (route_den_C: hx); the finding is recorded and replayed on its own."""
-        if variant_cc():
+        if variant_cc() or "chain_history" in w:
             return True
         cs = w["history"] if "history" in w else [w]
         return not any(conditioned_handled(c) for c in cs)
@@ -907,6 +1101,9 @@ class C07(PropertyCheck):
         for N in range(3, hist_maxN + 1):
             for kind, setup, gates in conditioned_next_to_ladder(N):
                 yield circ(N, setup, gates)
+        for N in range(3, min(hist_maxN, 6) + 1):
+            for kind, w in chain_histories(N, full=hist_maxN > 5):
+                yield w
 
     def oracle_search(self, ctx, budget_s):
         t0 = time.time()
@@ -915,7 +1112,8 @@ class C07(PropertyCheck):
             n0 = len(CALLS)
             f, d = check_property(w)
             if f:
-                return reproducible(w, len(CALLS)), d
+                w = reproducible(w, len(CALLS))
+                return w, (check_property(w)[1] if "chain_history" in w else d)
             return None
 
         for w in itertools.chain(self._sweep_multi(8, 7), self._sweep(16, MODEL_NAMES)):
@@ -954,7 +1152,8 @@ class C07(PropertyCheck):
                 kind = re.sub(r"\d+", "#", re.sub(r"^call \d+ of \d+ [^:]*: ", "", d))[:70]
                 if kind not in seen:
                     seen.add(kind)
-                    yield reproducible(w, len(CALLS)), d
+                    w = reproducible(w, len(CALLS))
+                    yield w, (check_property(w)[1] if "chain_history" in w else d)
 
 
 CHECK = C07()
